@@ -19,6 +19,7 @@ package override
 import (
 	"cmp"
 	"fmt"
+	"reflect"
 	"strings"
 
 	"github.com/compose-spec/compose-go/v2/tree"
@@ -196,7 +197,7 @@ func mergeExtraHosts(c any, o any, _ tree.Path) (any, error) {
 	// Rewrite content of left slice to remove duplicate elements
 	i := 0
 	for _, v := range left {
-		if !slices.Contains(right, v) {
+		if !slices.ContainsFunc(right, func(r any) bool { return reflect.DeepEqual(r, v) }) {
 			left[i] = v
 			i++
 		}
